@@ -491,6 +491,10 @@ func (t *translator) stmts(l []ast.Stmt, acts []int, e renv, k cont) string {
 				}
 				return "(if " + a.Coq + "\n then " + leaf(appendAct(acts, id), "Fall") + "\n else " + next(appendAct(acts, id), e) + ")"
 			}
+			if r, ok := t.spec.Binders[hdr]; ok {
+				// the nested loop assigns variables the rest of the body tests: from here on they stand for other atoms
+				return next(appendAct(acts, id), e.withP(r, true))
+			}
 			return next(appendAct(acts, id), e)
 		}
 		panic(trErr{"loop not in the action table: " + hdr})
